@@ -85,6 +85,9 @@ func propC02(c *Ctx, r *Report) {
 	c.runBlockWalkers(r, "operands", "spirv", inPkgs("spirv/internal/codegen"), nil)
 	r.Clauses = append(r.Clauses, enumMapClause+" - for validity: the capability declared for a builtin / image dimension, the storage class of an address space, the execution model and modes of a stage, the image format operand")
 	c.runEnumTables(r, "spirv")
+	r.Clauses = append(r.Clauses, "storage-class-aware pointee types (E23): where the storage class of a pointer is taken from the accessed expression (not known statically), the pointee type id handed to the pointer-type constructor was computed by a call that receives the same storage class (layout-free types for Workgroup, decorated ones elsewhere)")
+	c.runStorageClassAware(r, "ptrtype.scaware")
+	r.floor("ptrtype.scaware", 3)
 	r.Clauses = append(r.Clauses, "matrix layout through arrays (E13): every MatrixStride member decoration is emitted for a matrix found by unwrapping all array levels (Vulkan requires ColMajor/MatrixStride on every matrix or array-of-matrix member of a Block struct)")
 	c.runSeeThrough(r, "layout.seethrough")
 	r.floor("layout.seethrough", 2)
